@@ -71,7 +71,7 @@ VARIABLES
     \* dialers
     nd, dl, spawn,
     \* env
-    panic, hist
+    panic, unexp, hist
 
 callVars == <<pc, att, isNew, cur, slot, ctxDone, res, mydial>>
 chistVars == <<writes, used, delivered, failOK, startedClosed, val, dialedFor, wok, shared>>
@@ -79,7 +79,7 @@ connVars == <<health, closed, once, waiting, armed, srvq, owe>>
 rdrVars == <<rpc, rmsg, rw>>
 tVars == <<tclosed, tm, conns, idle, tctx, cl>>
 dialVars == <<nd, dl, spawn>>
-vars == <<callVars, chistVars, connVars, rdrVars, tVars, dialVars, panic, hist>>
+vars == <<callVars, chistVars, connVars, rdrVars, tVars, dialVars, panic, unexp, hist>>
 
 H(e) == hist' = IF WithHist THEN Append(hist, e) ELSE hist
 NoH == UNCHANGED hist
@@ -100,9 +100,10 @@ Init ==
     /\ rpc = [x \in ConnIds |-> "off"] /\ rmsg = [x \in ConnIds |-> None] /\ rw = [x \in ConnIds |-> None]
     /\ tclosed = FALSE /\ tm = "free" /\ conns = {} /\ idle = {} /\ tctx = FALSE /\ cl = "idle"
     /\ nd = 0 /\ dl = [d \in ConnIds |-> [owner |-> 0, st |-> "unused"]] /\ spawn = {}
-    /\ panic = FALSE /\ hist = <<>>
+    /\ panic = FALSE /\ unexp = FALSE /\ hist = <<>>
 
 Tok(c) == <<c, att[c]>>
+SetIdleEff(x) == idle' = IF ~tclosed /\ x \in conns THEN idle \cup {x} ELSE idle
 
 \* Local steps: they touch only state no other process reads at that moment (waitingResp of a connection
 \* the caller owns, the deadline register, the caller's own retry decision, allocation of a dial id).
@@ -123,7 +124,7 @@ Start(c) ==
     /\ startedClosed' = [startedClosed EXCEPT ![c] = (cl = "done")]
     /\ H([a |-> "Start", c |-> c])
     /\ UNCHANGED <<att, isNew, cur, slot, ctxDone, res, mydial, writes, used, delivered, failOK, val, dialedFor, wok, shared,
-                   connVars, rdrVars, tVars, dialVars, panic>>
+                   connVars, rdrVars, tVars, dialVars, panic, unexp>>
 
 \* result classes: "ok", "ctx", "tclosed", "other"
 Finish(c, r) ==
@@ -157,7 +158,7 @@ GetIdle(c) ==
                 /\ UNCHANGED <<res, slot, idle, failOK, shared>>
     /\ NoH
     /\ UNCHANGED <<ctxDone, writes, used, delivered, startedClosed, val, wok, connVars, rdrVars,
-                   tclosed, tm, conns, tctx, cl, nd, dl, panic>>
+                   tclosed, tm, conns, tctx, cl, nd, dl, panic, unexp>>
 
 \* select in getNewConn: ctx arm / transport ctx arm (both return directly = failure of a new conn)
 LeaveCtx(c) ==
@@ -166,7 +167,7 @@ LeaveCtx(c) ==
     /\ Finish(c, "ctx") /\ failOK' = [failOK EXCEPT ![c] = TRUE]
     /\ NoH
     /\ UNCHANGED <<att, isNew, cur, slot, ctxDone, mydial, writes, used, delivered, startedClosed, val, dialedFor, wok, shared,
-                   connVars, rdrVars, tVars, dialVars, panic>>
+                   connVars, rdrVars, tVars, dialVars, panic, unexp>>
 
 LeaveClosed(c) ==
     /\ Calm
@@ -174,13 +175,13 @@ LeaveClosed(c) ==
     /\ Finish(c, "tclosed") /\ failOK' = [failOK EXCEPT ![c] = TRUE]
     /\ NoH
     /\ UNCHANGED <<att, isNew, cur, slot, ctxDone, mydial, writes, used, delivered, startedClosed, val, dialedFor, wok, shared,
-                   connVars, rdrVars, tVars, dialVars, panic>>
+                   connVars, rdrVars, tVars, dialVars, panic, unexp>>
 
 Install(c) ==
     /\ MyTurnC(c)
     /\ pc[c] = "install"
     /\ LET x == cur[c] IN
-         /\ panic' = (panic \/ waiting[x] # None)
+         /\ panic' = (panic \/ waiting[x] # None) /\ UNCHANGED unexp
          /\ waiting' = [waiting EXCEPT ![x] = Tok(c)]
     /\ slot' = [slot EXCEPT ![c] = None]
     /\ delivered' = [delivered EXCEPT ![c] = FALSE] /\ wok' = [wok EXCEPT ![c] = FALSE] /\ UNCHANGED shared
@@ -197,7 +198,7 @@ ArmQ(c, k) ==
     /\ pc' = [pc EXCEPT ![c] = "write"]
     /\ H([a |-> "SetDeadline", x |-> cur[c], k |-> k])
     /\ UNCHANGED <<att, isNew, cur, slot, ctxDone, res, mydial, chistVars,
-                   health, closed, once, waiting, srvq, owe, rdrVars, tVars, dialVars, panic>>
+                   health, closed, once, waiting, srvq, owe, rdrVars, tVars, dialVars, panic, unexp>>
 
 \* Write is called: the bytes reach a healthy server now (it may answer before Write returns)
 WriteReq(c) ==
@@ -207,7 +208,7 @@ WriteReq(c) ==
          /\ writes' = [writes EXCEPT ![c] = @ + 1]
          /\ used' = [used EXCEPT ![c] = @ \cup {x}]
          /\ owe' = [owe EXCEPT ![x] = TRUE]
-         /\ panic' = (panic \/ srvq[x] # None)    \* two unanswered queries on one connection
+         /\ panic' = (panic \/ srvq[x] # None) /\ UNCHANGED unexp   \* two unanswered queries on one connection
          /\ srvq' = IF health[x] = "ok" /\ ~closed[x] THEN [srvq EXCEPT ![x] = Tok(c)] ELSE srvq
          /\ H([a |-> "WriteReq", x |-> x, c |-> c])
     /\ pc' = [pc EXCEPT ![c] = "writing"]
@@ -220,14 +221,14 @@ WriteOk(c) ==
     /\ pc[c] = "writing" /\ health[cur[c]] \in {"ok", "silent", "eof"}
     /\ pc' = [pc EXCEPT ![c] = "wait"] /\ wok' = [wok EXCEPT ![c] = TRUE] /\ UNCHANGED shared
     /\ H([a |-> "WriteRet", x |-> cur[c], c |-> c, ok |-> TRUE])
-    /\ UNCHANGED <<att, isNew, cur, slot, ctxDone, res, mydial, writes, used, delivered, failOK, startedClosed, val, dialedFor, connVars, rdrVars, tVars, dialVars, panic>>
+    /\ UNCHANGED <<att, isNew, cur, slot, ctxDone, res, mydial, writes, used, delivered, failOK, startedClosed, val, dialedFor, connVars, rdrVars, tVars, dialVars, panic, unexp>>
 
 WriteErr(c) ==
     /\ Calm
     /\ pc[c] = "writing" /\ (closed[cur[c]] \/ health[cur[c]] \in {"silent", "eof", "reset"})
     /\ pc' = [pc EXCEPT ![c] = "cweA"]
     /\ H([a |-> "WriteRet", x |-> cur[c], c |-> c, ok |-> FALSE])
-    /\ UNCHANGED <<att, isNew, cur, slot, ctxDone, res, mydial, chistVars, connVars, rdrVars, tVars, dialVars, panic>>
+    /\ UNCHANGED <<att, isNew, cur, slot, ctxDone, res, mydial, chistVars, connVars, rdrVars, tVars, dialVars, panic, unexp>>
 
 \* final select
 TakeReply(c) ==
@@ -236,7 +237,7 @@ TakeReply(c) ==
     /\ Finish(c, "ok") /\ val' = [val EXCEPT ![c] = slot[c]]
     /\ NoH
     /\ UNCHANGED <<att, isNew, cur, slot, ctxDone, mydial, writes, used, delivered, failOK, startedClosed, dialedFor, wok, shared,
-                   connVars, rdrVars, tVars, dialVars, panic>>
+                   connVars, rdrVars, tVars, dialVars, panic, unexp>>
 
 SeeClose(c) ==
     /\ Calm
@@ -245,15 +246,22 @@ SeeClose(c) ==
     /\ IF "ok_on_close" \in Dev THEN Finish(c, "ok")
                               ELSE pc' = [pc EXCEPT ![c] = "decide"] /\ res' = [res EXCEPT ![c] = "other"]
     /\ NoH
-    /\ UNCHANGED <<att, isNew, cur, slot, ctxDone, mydial, chistVars, connVars, rdrVars, tVars, dialVars, panic>>
+    /\ UNCHANGED <<att, isNew, cur, slot, ctxDone, mydial, chistVars, connVars, rdrVars, tVars, dialVars, panic, unexp>>
 
+\* deviations (non-vacuity): "ctx_sets_idle" = the abandoned connection goes back to the idle pool although the
+\* server still owes the reply; "ctx_clears_waiting" = waitingResp is cleared without checking whose it is
 SeeCtx(c) ==
     /\ Calm
     /\ pc[c] = "wait" /\ ctxDone[c]
     /\ pc' = [pc EXCEPT ![c] = "decide"]
     /\ res' = [res EXCEPT ![c] = "ctx"]
+    /\ LET x == cur[c] IN
+         /\ waiting' = IF "ctx_clears_waiting" \in Dev \/ ("ctx_sets_idle" \in Dev /\ waiting[x] = Tok(c))
+                          THEN [waiting EXCEPT ![x] = None] ELSE waiting
+         /\ IF "ctx_sets_idle" \in Dev THEN tm = "free" /\ SetIdleEff(x) ELSE UNCHANGED idle
     /\ NoH
-    /\ UNCHANGED <<att, isNew, cur, slot, ctxDone, mydial, chistVars, connVars, rdrVars, tVars, dialVars, panic>>
+    /\ UNCHANGED <<att, isNew, cur, slot, ctxDone, mydial, chistVars, health, closed, once, armed, srvq, owe,
+                   rdrVars, tclosed, tm, conns, tctx, cl, dialVars, panic, unexp>>
 
 MayRetry(c) == CASE Policy = "code" -> ~isNew[c] /\ att[c] <= MaxRetry + 1
                  [] Policy = "noretry" -> FALSE
@@ -265,7 +273,7 @@ Retry(c) ==
     /\ pc[c] = "decide" /\ MayRetry(c)
     /\ pc' = [pc EXCEPT ![c] = "get"] /\ res' = [res EXCEPT ![c] = "na"]
     /\ NoH
-    /\ UNCHANGED <<att, isNew, cur, slot, ctxDone, mydial, chistVars, connVars, rdrVars, tVars, dialVars, panic>>
+    /\ UNCHANGED <<att, isNew, cur, slot, ctxDone, mydial, chistVars, connVars, rdrVars, tVars, dialVars, panic, unexp>>
 
 Fail(c) ==
     /\ MyTurnC(c)
@@ -274,7 +282,7 @@ Fail(c) ==
     /\ failOK' = [failOK EXCEPT ![c] = FailNowOK(c)]
     /\ NoH
     /\ UNCHANGED <<att, isNew, cur, slot, ctxDone, res, mydial, writes, used, delivered, startedClosed, val, dialedFor, wok, shared,
-                   connVars, rdrVars, tVars, dialVars, panic>>
+                   connVars, rdrVars, tVars, dialVars, panic, unexp>>
 
 ------------------------------------------------------------------------------
 \* closeWithErr(x) by actor a (a call c closing cur[c], or the reader of x)
@@ -312,7 +320,7 @@ CallCweA(c) ==
     /\ pc' = [pc EXCEPT ![c] = "cweB"]
     /\ NoH
     /\ UNCHANGED <<att, isNew, cur, slot, ctxDone, res, mydial, chistVars,
-                   health, closed, waiting, armed, srvq, owe, rdrVars, tclosed, tm, tctx, cl, dialVars, panic>>
+                   health, closed, waiting, armed, srvq, owe, rdrVars, tclosed, tm, tctx, cl, dialVars, panic, unexp>>
 
 CallCweB(c) ==
     /\ Calm
@@ -320,7 +328,7 @@ CallCweB(c) ==
     /\ pc' = [pc EXCEPT ![c] = "decide"] /\ res' = [res EXCEPT ![c] = "other"]
     /\ IF CweWillClose(c, cur[c]) THEN H([a |-> "CloseReq", x |-> cur[c]]) ELSE NoH
     /\ UNCHANGED <<att, isNew, cur, slot, ctxDone, mydial, chistVars,
-                   health, waiting, armed, srvq, owe, rdrVars, tclosed, tm, tctx, cl, dialVars, panic>>
+                   health, waiting, armed, srvq, owe, rdrVars, tclosed, tm, tctx, cl, dialVars, panic, unexp>>
 
 RdrCweA(x) ==
     /\ Calm
@@ -328,7 +336,7 @@ RdrCweA(x) ==
     /\ rpc' = [rpc EXCEPT ![x] = "cweB"]
     /\ NoH
     /\ UNCHANGED <<callVars, chistVars, health, closed, waiting, armed, srvq, owe, rmsg, rw,
-                   tclosed, tm, tctx, cl, dialVars, panic>>
+                   tclosed, tm, tctx, cl, dialVars, panic, unexp>>
 
 RdrCweB(x) ==
     /\ Calm
@@ -336,7 +344,7 @@ RdrCweB(x) ==
     /\ rpc' = [rpc EXCEPT ![x] = "dead"]
     /\ IF CweWillClose(RDR, x) THEN H([a |-> "CloseReq", x |-> x]) ELSE NoH
     /\ UNCHANGED <<callVars, chistVars, health, waiting, armed, srvq, owe, rmsg, rw,
-                   tclosed, tm, tctx, cl, dialVars, panic>>
+                   tclosed, tm, tctx, cl, dialVars, panic, unexp>>
 
 ------------------------------------------------------------------------------
 \* reader
@@ -351,15 +359,28 @@ ServerReply(x) ==
          delivered' = [delivered EXCEPT ![c] = @ \/ (srvq[x] = Tok(c) /\ pc[c] \in {"writing", "wait"} /\ cur[c] = x)]
     /\ H([a |-> "ReadRet", x |-> x, k |-> "reply", c |-> srvq[x][1], n |-> srvq[x][2]])
     /\ UNCHANGED <<callVars, writes, used, failOK, startedClosed, val, dialedFor, wok, shared,
-                   health, closed, once, waiting, armed, rw, tVars, dialVars, panic>>
+                   health, closed, once, waiting, armed, rw, tVars, dialVars, panic, unexp>>
 
 Take(x) ==
     /\ MyTurnR(x)
     /\ rpc[x] = "got"
     /\ rw' = [rw EXCEPT ![x] = waiting[x]] /\ waiting' = [waiting EXCEPT ![x] = None]
     /\ rpc' = [rpc EXCEPT ![x] = IF waiting[x] = None THEN "cweA" ELSE "armIdle"]
+    \* a reply to the query of a call that is still waiting for it finds no waiter: it would be dropped as
+    \* 'unexpected response'
+    /\ unexp' = (unexp \/ (waiting[x] = None /\ rmsg[x] # <<0, 0>> /\
+                            LET c == rmsg[x][1] IN rmsg[x] = Tok(c) /\ cur[c] = x /\ pc[c] \in {"writing", "wait"} /\ ~ctxDone[c]))
     /\ NoH
     /\ UNCHANGED <<callVars, chistVars, health, closed, once, armed, srvq, owe, rmsg, tVars, dialVars, panic>>
+
+\* Contract freedom (Policy "any" only): the code may stop expecting the reply of an attempt that has ended
+\* (cancelled); a late reply then closes the connection as 'unexpected response' instead of re-pooling it.
+Forget(x) ==
+    /\ Policy = "any" /\ waiting[x] # None
+    /\ LET c == waiting[x][1] IN ~(waiting[x] = Tok(c) /\ pc[c] \in {"arm", "write", "writing", "wait", "cweA", "cweB"})
+    /\ waiting' = [waiting EXCEPT ![x] = None]
+    /\ NoH
+    /\ UNCHANGED <<callVars, chistVars, health, closed, once, armed, srvq, owe, rdrVars, tVars, dialVars, panic, unexp>>
 
 ArmIdle(x, k) ==
     /\ MyTurnR(x)
@@ -367,9 +388,8 @@ ArmIdle(x, k) ==
     /\ armed' = IF "idle_before_arm" \in Dev THEN armed ELSE [armed EXCEPT ![x] = k]
     /\ rpc' = [rpc EXCEPT ![x] = "setIdle"]
     /\ H([a |-> "SetReadDeadline", x |-> x, k |-> k])
-    /\ UNCHANGED <<callVars, chistVars, health, closed, once, waiting, srvq, owe, rmsg, rw, tVars, dialVars, panic>>
+    /\ UNCHANGED <<callVars, chistVars, health, closed, once, waiting, srvq, owe, rmsg, rw, tVars, dialVars, panic, unexp>>
 
-SetIdleEff(x) == idle' = IF ~tclosed /\ x \in conns THEN idle \cup {x} ELSE idle
 
 SetIdle(x) ==
     /\ Calm
@@ -377,7 +397,7 @@ SetIdle(x) ==
     /\ SetIdleEff(x)
     /\ rpc' = [rpc EXCEPT ![x] = "hand"]
     /\ NoH
-    /\ UNCHANGED <<callVars, chistVars, connVars, rmsg, rw, tclosed, tm, conns, tctx, cl, dialVars, panic>>
+    /\ UNCHANGED <<callVars, chistVars, connVars, rmsg, rw, tclosed, tm, conns, tctx, cl, dialVars, panic, unexp>>
 
 Hand(x) ==
     /\ Calm
@@ -389,7 +409,7 @@ Hand(x) ==
     /\ armed' = IF "idle_before_arm" \in Dev THEN [armed EXCEPT ![x] = "idle"] ELSE armed
     /\ NoH
     /\ UNCHANGED <<pc, att, isNew, cur, ctxDone, res, mydial, chistVars, health, closed, once, waiting, srvq, owe,
-                   rmsg, rw, tVars, dialVars, panic>>
+                   rmsg, rw, tVars, dialVars, panic, unexp>>
 
 \* C01: a message arrives although no query is outstanding on an idle pooled connection (enabled by "surplus" \in Kinds).
 \* readLoop finds no waiter and closes the connection ("unexpected response").
@@ -399,7 +419,7 @@ Surplus(x) ==
     /\ rmsg' = [rmsg EXCEPT ![x] = <<0, 0>>]
     /\ rpc' = [rpc EXCEPT ![x] = "got"]
     /\ H([a |-> "ReadRet", x |-> x, k |-> "surplus"])
-    /\ UNCHANGED <<callVars, chistVars, connVars, rw, tVars, dialVars, panic>>
+    /\ UNCHANGED <<callVars, chistVars, connVars, rw, tVars, dialVars, panic, unexp>>
 
 \* k: "err" (EOF, reset, short frame, garbage length ...) needs a dead peer or a locally closed conn;
 \*    "timeout" needs an armed deadline (virtual time: any armed deadline may expire)
@@ -410,7 +430,7 @@ ReadFail(x, k) ==
        \/ k = "timeout" /\ armed[x] # "none" /\ ~closed[x]
     /\ rpc' = [rpc EXCEPT ![x] = "cweA"]
     /\ H([a |-> "ReadRet", x |-> x, k |-> k, armed |-> armed[x]])
-    /\ UNCHANGED <<callVars, chistVars, connVars, rmsg, rw, tVars, dialVars, panic>>
+    /\ UNCHANGED <<callVars, chistVars, connVars, rmsg, rw, tVars, dialVars, panic, unexp>>
 
 ------------------------------------------------------------------------------
 \* dial goroutine of getNewConn
@@ -422,7 +442,7 @@ DialInvoke(c) ==
     /\ dl' = [dl EXCEPT ![nd + 1] = [owner |-> c, st |-> "dialing"]]
     /\ mydial' = IF pc[c] = "dialWait" /\ mydial[c] = 0 THEN [mydial EXCEPT ![c] = nd + 1] ELSE mydial
     /\ H([a |-> "Dial", d |-> nd + 1])
-    /\ UNCHANGED <<pc, att, isNew, cur, slot, ctxDone, res, chistVars, connVars, rdrVars, tVars, panic>>
+    /\ UNCHANGED <<pc, att, isNew, cur, slot, ctxDone, res, chistVars, connVars, rdrVars, tVars, panic, unexp>>
 
 DialOk(d) ==
     /\ Calm
@@ -430,7 +450,7 @@ DialOk(d) ==
     /\ dl' = [dl EXCEPT ![d].st = "ok"]
     /\ health' = [health EXCEPT ![d] = "ok"]
     /\ H([a |-> "DialRet", d |-> d, ok |-> TRUE])
-    /\ UNCHANGED <<callVars, chistVars, closed, once, waiting, armed, srvq, owe, rdrVars, tVars, nd, spawn, panic>>
+    /\ UNCHANGED <<callVars, chistVars, closed, once, waiting, armed, srvq, owe, rdrVars, tVars, nd, spawn, panic, unexp>>
 
 \* dial error, or a hanging dial ended by the dial timeout / the transport's context
 DialErr(d) ==
@@ -438,7 +458,7 @@ DialErr(d) ==
     /\ dl[d].st = "dialing"
     /\ dl' = [dl EXCEPT ![d].st = "offerErr"]
     /\ H([a |-> "DialRet", d |-> d, ok |-> FALSE])
-    /\ UNCHANGED <<callVars, chistVars, connVars, rdrVars, tVars, nd, spawn, panic>>
+    /\ UNCHANGED <<callVars, chistVars, connVars, rdrVars, tVars, nd, spawn, panic, unexp>>
 
 Register(d) ==
     /\ Calm
@@ -454,7 +474,7 @@ Register(d) ==
               /\ NoH
               /\ UNCHANGED <<closed, once>>
     /\ UNCHANGED <<callVars, chistVars, health, waiting, armed, srvq, owe, rmsg, rw,
-                   tclosed, tm, idle, tctx, cl, nd, spawn, panic>>
+                   tclosed, tm, idle, tctx, cl, nd, spawn, panic, unexp>>
 
 OwnerWaits(d) == LET c == dl[d].owner IN pc[c] = "dialWait" /\ mydial[c] = d
 
@@ -471,7 +491,7 @@ HandOver(d) ==
     /\ dl' = [dl EXCEPT ![d].st = "done"]
     /\ NoH
     /\ UNCHANGED <<att, isNew, slot, ctxDone, mydial, writes, used, delivered, startedClosed, val, dialedFor, wok, shared,
-                   connVars, rdrVars, tVars, nd, spawn, panic>>
+                   connVars, rdrVars, tVars, nd, spawn, panic, unexp>>
 
 \* callCtx.Done arm: the caller has gone (or its ctx is done): a dialled connection goes to the idle pool
 Abandon(d) ==
@@ -481,7 +501,7 @@ Abandon(d) ==
     /\ IF dl[d].st = "offer" THEN tm = "free" /\ SetIdleEff(d) ELSE UNCHANGED idle
     /\ dl' = [dl EXCEPT ![d].st = "done"]
     /\ NoH
-    /\ UNCHANGED <<callVars, chistVars, connVars, rdrVars, tclosed, tm, conns, tctx, cl, nd, spawn, panic>>
+    /\ UNCHANGED <<callVars, chistVars, connVars, rdrVars, tclosed, tm, conns, tctx, cl, nd, spawn, panic, unexp>>
 
 ------------------------------------------------------------------------------
 \* transport Close (holds t.m from TCloseLock to TCloseEnd)
@@ -490,14 +510,14 @@ TCloseStart ==
     /\ Calm
     /\ EnvTClose /\ cl = "idle" /\ cl' = "start"
     /\ H([a |-> "TClose"])
-    /\ UNCHANGED <<callVars, chistVars, connVars, rdrVars, tclosed, tm, conns, idle, tctx, dialVars, panic>>
+    /\ UNCHANGED <<callVars, chistVars, connVars, rdrVars, tclosed, tm, conns, idle, tctx, dialVars, panic, unexp>>
 
 TCloseLock ==
     /\ Calm
     /\ cl = "start" /\ tm = "free"
     /\ tclosed' = TRUE /\ tm' = "closer" /\ cl' = "locked"
     /\ NoH
-    /\ UNCHANGED <<callVars, chistVars, connVars, rdrVars, conns, idle, tctx, dialVars, panic>>
+    /\ UNCHANGED <<callVars, chistVars, connVars, rdrVars, conns, idle, tctx, dialVars, panic, unexp>>
 
 \* one iteration: delete from both maps, closeWithErrByTransport (closeOnce.Do: blocks while another actor is inside)
 TCloseOne(x) ==
@@ -508,21 +528,21 @@ TCloseOne(x) ==
     /\ closed' = [closed EXCEPT ![x] = TRUE] /\ once' = [once EXCEPT ![x] = DONE]
     /\ IF once[x] = FREE THEN H([a |-> "CloseReq", x |-> x]) ELSE NoH
     /\ UNCHANGED <<callVars, chistVars, health, waiting, armed, srvq, owe, rdrVars, tclosed, tm, tctx, cl,
-                   dialVars, panic>>
+                   dialVars, panic, unexp>>
 
 TCloseEnd ==
     /\ Calm
     /\ cl = "locked" /\ (conns = {} \/ "close_skips" \in Dev)
     /\ tctx' = TRUE /\ tm' = "free" /\ cl' = "ret"
     /\ NoH
-    /\ UNCHANGED <<callVars, chistVars, connVars, rdrVars, tclosed, conns, idle, dialVars, panic>>
+    /\ UNCHANGED <<callVars, chistVars, connVars, rdrVars, tclosed, conns, idle, dialVars, panic, unexp>>
 
 \* Close has returned (observed by the controller)
 TCloseObs ==
     /\ Calm
     /\ cl = "ret" /\ cl' = "done"
     /\ H([a |-> "TCloseRet"])
-    /\ UNCHANGED <<callVars, chistVars, connVars, rdrVars, tclosed, tm, conns, idle, tctx, dialVars, panic>>
+    /\ UNCHANGED <<callVars, chistVars, connVars, rdrVars, tclosed, tm, conns, idle, tctx, dialVars, panic, unexp>>
 
 ------------------------------------------------------------------------------
 \* environment
@@ -533,14 +553,14 @@ Kill(x, k) ==
     /\ Cardinality({y \in ConnIds : health[y] \notin {"na", "ok"}}) < MaxFaults
     /\ health' = [health EXCEPT ![x] = k]
     /\ H([a |-> "Kill", x |-> x, k |-> k])
-    /\ UNCHANGED <<callVars, chistVars, closed, once, waiting, armed, srvq, owe, rdrVars, tVars, dialVars, panic>>
+    /\ UNCHANGED <<callVars, chistVars, closed, once, waiting, armed, srvq, owe, rdrVars, tVars, dialVars, panic, unexp>>
 
 Cancel(c) ==
     /\ Calm
     /\ c \in CancelCalls /\ ~ctxDone[c] /\ pc[c] \notin {"na", "done"}
     /\ ctxDone' = [ctxDone EXCEPT ![c] = TRUE]
     /\ H([a |-> "Cancel", c |-> c])
-    /\ UNCHANGED <<pc, att, isNew, cur, slot, res, mydial, chistVars, connVars, rdrVars, tVars, dialVars, panic>>
+    /\ UNCHANGED <<pc, att, isNew, cur, slot, res, mydial, chistVars, connVars, rdrVars, tVars, dialVars, panic, unexp>>
 
 ------------------------------------------------------------------------------
 CallStep(c) ==
@@ -608,6 +628,8 @@ ArmedIsShortWhenOwed == \A x \in ConnIds : (owe[x] /\ ~closed[x]) => armed[x] = 
 Busy(x) == {c \in Calls : cur[c] = x /\ ~delivered[c] /\ pc[c] \in {"install", "arm", "write", "writing", "wait"}}
 OneAtATime == ~panic /\ \A x \in ConnIds : Cardinality(Busy(x)) <= 1 /\ (x \in idle => Busy(x) = {})
 IdleSound == idle \subseteq conns /\ \A x \in idle : waiting[x] = None
+\* C02: a reply to a written query always finds its waiter (it is never dropped as 'unexpected response')
+NoSpuriousUnexpected == ~unexp
 
 TypeOK ==
     /\ \A c \in Calls : pc[c] \in {"na", "get", "dialWait", "install", "arm", "write", "writing", "wait",
@@ -616,7 +638,7 @@ TypeOK ==
     /\ tm \in {"free", "closer"} /\ cl \in {"idle", "start", "locked", "ret", "done"}
 
 ReuseInv == FailOnlyWhen /\ AttemptsBounded /\ NoLoss /\ ErrOnFault /\ ClosedRejects /\ CloseWakesAll
-            /\ ArmedIsShortWhenOwed /\ OneAtATime /\ IdleSound
+            /\ ArmedIsShortWhenOwed /\ OneAtATime /\ IdleSound /\ NoSpuriousUnexpected
 
 \* liveness (FairSpec, no constraint)
 CallsEnd == \A c \in Calls : (pc[c] # "na") ~> Ended(c)
@@ -636,5 +658,5 @@ Quiescent ==
 Emit == (Quiescent /\ \A c \in Calls : pc[c] = "done") =>
     PrintT(<<"BEH", ToJson([steps |-> hist, res |-> res, att |-> att])>>)
 
-ViewNoHist == <<callVars, chistVars, connVars, rdrVars, tVars, dialVars, panic>>
+ViewNoHist == <<callVars, chistVars, connVars, rdrVars, tVars, dialVars, panic, unexp>>
 =============================================================================
